@@ -27,6 +27,35 @@ def trees_for(payload, for_search=False, flags=False):
     leaves2 = gen.prop_leaves(["p", "q"])           # few names: repeated operands (p ^ p, q & q) next to siblings sharing them
     for _ in range(4000 if thorough else 600):
         trees.append(gen.build(gen.random_shape(rng, len(leaves2), rng.choice([3, 3, 4])), leaves2))
+    # LONG chains (the exhaustive family stops at 6 nodes): 7-12 operands of one connective, prefix pairs, repeated operands deep in a chain
+    from predicate.named_predicate import NamedPredicate as _N
+    vs = [_N(name=chr(97 + i)) for i in range(10)]
+
+    def chain(op, items):
+        t = items[0]
+        for it in items[1:]:
+            t = gen.mk(op, t, it)
+        return t
+
+    def rchain(op, items):
+        t = items[-1]
+        for it in reversed(items[:-1]):
+            t = gen.mk(op, it, t)
+        return t
+    for op in ("and", "or", "xor"):
+        for k in (7, 9, 10):
+            trees += [chain(op, vs[:k]), rchain(op, vs[:k]), chain(op, vs[:k - 1] + [gen.mk("and", vs[0], vs[k - 1])]),
+                      chain(op, vs[:k - 1] + [gen.mk("or", vs[1], vs[k - 1])]), gen.mk("not", chain(op, vs[:k]))]
+        for k in (8, 9):
+            a_, b_ = chain(op, vs[:k]), chain(op, vs[:k + 1])
+            trees += [gen.mk("and", a_, b_), gen.mk("and", a_, gen.mk("not", b_)), gen.mk("or", b_, a_), gen.mk("xor", a_, b_), gen.mk("or", gen.mk("not", a_), b_)]
+    p_, q_, r_ = vs[0], vs[1], vs[2]
+    pqr = chain("xor", [p_, q_, r_])
+    trees += [gen.mk("xor", gen.mk("xor", pqr, p_), gen.mk("xor", pqr, q_)), gen.mk("and", gen.mk("xor", pqr, p_), gen.mk("not", gen.mk("xor", chain("xor", [q_, p_, r_]), q_))),
+              gen.mk("xor", gen.mk("not", gen.mk("xor", gen.mk("xor", p_, q_), p_)), gen.mk("xor", gen.mk("xor", p_, q_), q_)),
+              chain("xor", vs[:4] + [gen.mk("or", vs[0], vs[1]), gen.mk("or", vs[1], vs[2]), gen.mk("or", vs[2], vs[3]), gen.mk("or", vs[0], vs[3]), gen.mk("or", vs[0], vs[2]), gen.mk("or", vs[1], vs[3])]),
+              chain("or", vs[:7] + [gen.mk("and", vs[0], vs[7])]), chain("and", vs[:7] + [gen.mk("or", vs[0], vs[7])]),
+              chain("or", [gen.mk("not", vs[0])] + vs[1:10])]
     # shared sub-terms (the same object used twice) and both operand orders
     a = gen.build(gen.random_shape(rng, len(leaves), 2), leaves)
     trees += [PP.AndPredicate(a, a), PP.OrPredicate(a, PP.NotPredicate(a)), PP.XorPredicate(PP.NotPredicate(a), a)]
